@@ -1,4 +1,4 @@
 SPECIFICATION TraceSpec
-INVARIANT I09
+INVARIANT J09
 POSTCONDITION TraceAccepted
 CHECK_DEADLOCK FALSE
